@@ -1,6 +1,7 @@
 //! Kani proof harnesses over the real rpki-rs code (path dependency on /repo).
 //! One module per property; see /verif/DESIGN.md.
 #![allow(dead_code, unused_imports, clippy::all)]
+#![cfg_attr(kani, feature(allocator_api))]
 
 #[cfg(kani)]
 pub mod util;
@@ -19,3 +20,11 @@ mod c16;
 mod probe;
 #[cfg(kani)]
 mod c17;
+#[cfg(kani)]
+mod c02;
+#[cfg(kani)]
+mod c03;
+#[cfg(kani)]
+mod c09;
+#[cfg(kani)]
+mod c14;
